@@ -161,6 +161,12 @@ let reuse_case id c =
     let status, logs = (match args run with
       | st :: logs -> (atom st, logs) | _ -> failwith "run") in
     count "runs"; count "reuse_runs";
+    if mode >= 10 then begin
+      (* error path: the run was made to fail half way; it is not judged (but for a panic), the runs after it are *)
+      count "reuse_runs_made_to_fail";
+      if status = "err" then count "reuse_runs_aborted_by_the_injected_failure";
+      if status = "panic" then propfail id (Printf.sprintf "run #%d (made to fail at a Consume call): Pipeline.Run panicked" k)
+    end else begin
     if k > 0 then begin
       count (Printf.sprintf "reuse_runs_mode_%d" mode);
       let p = !prev in
@@ -194,11 +200,48 @@ let reuse_case id c =
         | None ->
             if exec_ok g recs then count "logs_accepted"
             else propfail id (Printf.sprintf "%s: the Consume log is rejected by exec_ok against the history restricted to these commits: %s=%s"
-                                where (tag l) (show_log l))) logs)
+                                where (tag l) (show_log l))) logs
+    end)
     (List.combine sels runs)
+
+(* large histories on one Pipeline object: run k was handed every commit but drops[k] (-1: all); each call log is read
+   as a plan over instance ids and judged by fast_c02 against the history without that commit; every other commit must
+   be consumed, the dropped one must not *)
+let reuse_scale id c =
+  let ps = Array.map ints_of_sx (Array.of_list (args (field "graph" c))) in
+  let drops = List.map int_of_sx (args (field "drops" c)) in
+  let runs = args (field "runs" (field "obs" c)) in
+  if List.length drops <> List.length runs then failwith "reuse-big: drops and runs differ in length";
+  count "reuse_cases";
+  List.iteri (fun k (d, run) ->
+    let where = Printf.sprintf "run #%d of one Pipeline object over a large history without commit %d" k d in
+    let status, log = (match args run with [st; l] -> (atom st, l) | _ -> failwith "run") in
+    count "runs"; count "scale_runs"; count "reuse_runs"; count "reuse_runs_large";
+    if status <> "ok" then propfail id (Printf.sprintf "%s: Pipeline.Run did not complete: %s" where status)
+    else begin
+      let par = par_of_array (Array.mapi (fun i l -> if i = d then [] else List.filter (fun p -> p <> d) l) ps) in
+      let plan = List.rev (List.rev_map faction_of_event (args log)) in
+      count "logs_judged"; add "scale_calls_judged" (List.length plan);
+      let seen = Array.make (Array.length ps) false in
+      List.iter (fun a -> match a.fkind, a.fcommit with
+        | KCommit, Some c -> let i = int_of_n c in if i < Array.length seen then seen.(i) <- true
+        | _ -> ()) plan;
+      add "consume_records" (List.length (List.filter (fun a -> a.fkind = KCommit) plan));
+      let missing = ref [] in
+      Array.iteri (fun i b -> if not b && i <> d then missing := i :: !missing) seen;
+      if d >= 0 && d < Array.length seen && seen.(d) then
+        propfail id (Printf.sprintf "%s: commit %d, which was not handed to this run, was consumed" where d)
+      else if not (fast_c02 par plan) then
+        propfail id (Printf.sprintf "%s: the call log is rejected by fast_c02 (instances as branches): %s" where (first_reject par plan))
+      else if !missing <> [] then
+        propfail id (Printf.sprintf "%s: %d of the commits handed to the run were never consumed, e.g. commit %d"
+                       where (List.length !missing) (List.hd (List.rev !missing)))
+      else count "logs_accepted"
+    end) (List.combine drops runs)
 
 let run_mode () =
   iter_cases (fun id c ->
+    if field_opt "drops" c <> None then reuse_scale id c else
     if field_opt "sels" c <> None then reuse_case id c else
     if field_opt "shape" c <> None then scale_run id c else
     let g = graph_of_case c in
